@@ -127,8 +127,10 @@ func VerifC17Order() {
 	}
 	c2 = zz.Realise(c2)
 	cfg := lint.NewEmptyConfig()
+	zz.MonitorStart()
 	r1 := l.Execute(c1, cfg)
 	r2 := l.Execute(c2, cfg)
+	zz.MonitorStop()
 	zz.Assert(r1 != nil && r2 != nil, "both runs return a result")
 	if r1 == nil || r2 == nil {
 		return
